@@ -132,7 +132,7 @@ if __name__ == "__main__":
       "setup_cmd": f"cd /verif && {ENV} go1.26.8 build -o bin/verifctl ./cmd/verifctl && bin/verifctl warm",
       "hooks": {
         "guard": "verif",
-        "enable": "no source hooks: each check compiles /repo's working tree with `go test -c -overlay=<generated>` which swaps the imports os/io/ioutil/log/net of the packages under test for simulator shims (DESIGN.md 2.1); the build tag `verif` is reserved and unused",
+        "enable": "no source hooks: each check compiles /repo's working tree with `go test -c -overlay=<generated>` which swaps the imports os/io/ioutil/log/net (and sync, for the dialer registry) of the packages under test for simulator shims (DESIGN.md 2.1) and, for fbb, lzhuf and transport/dial.go, puts a call to a yield point in front of every statement, on the same line (DESIGN.md 8.9); /repo itself is never modified; the build tag `verif` is reserved and unused",
         "baseline_off_cmd": "cd /repo && go test -vet=off -count=1 ./...",
         "source_commits": [],
         "add_only": True,
